@@ -353,6 +353,9 @@ def rule_m(chk, prog):
                 on.add((t.id, True))
             elif isinstance(c.ops[0], ast.NotEq):
                 on.add((t.id, False))
+    # the returned depth: the plain locals of the return tuple (the state object is returned too; its stores are the `th` stores below)
+    returned = {e.id for r in walk_no_nested(pi.node) if isinstance(r, ast.Return) and r.value is not None
+                for e in (r.value.elts if isinstance(r.value, ast.Tuple) else [r.value]) if isinstance(e, ast.Name) and e.id not in pi.params}
     n = 0
     for k in cfg.live_nodes():
         a = k.ast
@@ -360,7 +363,7 @@ def rule_m(chk, prog):
             continue
         t = a.targets[0] if isinstance(a, ast.Assign) else a.target
         is_th = isinstance(t, ast.Subscript) and norm(t.value).split(".")[-1] == "th"
-        is_depth = isinstance(t, ast.Name) and "irr" in t.id.lower() and not (isinstance(a.value, ast.Constant) and a.value.value == 0)
+        is_depth = isinstance(t, ast.Name) and t.id in returned and not isinstance(a.value, (ast.Constant, ast.Name))
         if not (is_th or is_depth):
             continue
         n += 1
